@@ -611,11 +611,9 @@ theorem acceptsTrace_run (s0 s : Sys) (os : List Obs) (h : acceptsTrace s0 os = 
   | ok m =>
     rw [hr] at h
     simp only at h
-    split at h
-    · cases h
-    · split at h
-      · cases h
-      · cases h
-        exact runObs_run os _ m hr
+    repeat' (split at h)
+    all_goals first
+      | (cases h; done)
+      | (cases h; exact runObs_run os _ m hr)
 
 end TwoNode
